@@ -12,8 +12,11 @@ Only a slice of the property is within reach of solver-based checking (DESIGN.md
   coordinates) and the real VTK writer on geometric 6-node triangles; O6 is the structured generator with symbolic extents and the
   geometric meaning of the `create_edges` tables.
 
-Everything that quantifies over topologies or files (arbitrary meshes, `create_edges` adjacency on arbitrary connectivity,
-`combine_mesh`/`combine_blocks`/node sets/side sets, both file readers) is outside the claim: see OUTSIDE.
+* O8 (PX): the real source of `combine_mesh` / `combine_nodesets` / `combine_sidesets` / `combine_blocks` on meshes whose node and element counts and whose
+  node-set / side-set / block entries are symbolic integers (offsets, ranges, member counts, inputs not mutated, merge(a,b) then merge(a,c)).
+
+Everything that quantifies over topologies or files (arbitrary meshes, `create_edges` adjacency on arbitrary connectivity, both file readers) is
+outside the claim: see OUTSIDE.
 """
 import io
 import math
@@ -37,7 +40,8 @@ OUTSIDE = ('validity for ARBITRARY topologies (the quantifier of the property is
            'connectivities are covered, the coordinates are universally quantified',
            'Mesh.create_edges adjacency on arbitrary connectivity (integer bookkeeping behind numpy.sort/unique/where: a solver would have to fork on every '
            'comparison, i.e. enumerate topologies); here its output is a concrete table per fixed topology, checked by ground facts and given its geometric meaning',
-           'Mesh.combine_mesh / combine_blocks / combine_nodesets / combine_sidesets (index offsetting of dictionaries of integer arrays; clashing set names): not applicable',
+           'Mesh.combine_mesh / combine_blocks / combine_nodesets / combine_sidesets: covered by O8 (PX) for symbolic mesh sizes and symbolic set contents with small fixed numbers of '
+           'sets and entries per set; larger numbers of sets/entries and degree > 1 meshes are outside',
            'ReadMesh.read_json_mesh and ReadExodusMesh.read_exodus_mesh as file readers (JSON / netCDF C library, 1-based to 0-based bookkeeping, blocks, node and side '
            'sets, element maps): not applicable; only the Tri6 node-order permutation is checked, through the real reader on an in-memory stand-in for the file',
            'Surface.create_edges (Python-level branching on a user predicate of the coordinates) and create_nodesets_from_sidesets (numpy.unique)',
@@ -55,7 +59,7 @@ DESIGNED_NOT_REGISTERED = [
     ('O3 for pairs of elements that share at most a vertex from "every element area >= a_min" alone',
      'not a theorem for open fans/strips (positive areas do not exclude overlap of non-adjacent elements) and, where it is one (closed fan), it needs a global winding argument that '
      'nlsat did not finish (10 reals, unknown at 10 s per pair); registered with the explicit separation hypothesis per candidate side (separating-axis theorem)'),
-    ('validity for arbitrary topologies, create_edges on arbitrary connectivity, combine_mesh/combine_blocks/node sets/side sets, the two file readers as readers',
+    ('validity for arbitrary topologies, create_edges on arbitrary connectivity, the two file readers as readers',
      'not applicable to solver-based checking (quantifier over topologies/files; integer bookkeeping behind numpy.sort/unique, JSON, netCDF): stated in OUTSIDE'),
 ]
 
@@ -814,3 +818,405 @@ def o7(h):
                 atoms.append(Eq(rev_l, rev_r, name='right_element_returns_the_same_points_reversed'))
             return box(X), atoms
         c.prove('O7[%s]' % E.label, spec, cap=40, order=('smt', 'nlsat'))
+
+
+# ------------------------------------------------------------------------------------------ O8: merging (PX on the real source)
+# The REAL source of Mesh.combine_mesh / combine_nodesets / combine_sidesets / combine_blocks is executed (px.load_module) on two (three) meshes whose
+# node counts n and element counts e are SYMBOLIC integers and whose node-set / side-set / block entries are symbolic integers in range of their own mesh.
+# * sets are real Python dicts name -> `SArr` (tiny arrays of fixed length with symbolic entries, functional `.at[...]` updates like jax arrays);
+# * coords / conns / disp are `Rows`: arrays known through their (symbolic) row count and ONE generic row at a symbolic index; `+ scalar` and
+#   `np.concatenate(..., axis=0)` are the only operations the merge code applies to them;
+# * replay: the same harness builds real jax arrays of the model's sizes and values and calls the real `optimism.Mesh` functions.
+N_MAX = 100000          # sizes 1 <= n, e <= N_MAX (keeps replay arrays small; the arithmetic is linear, the bound is immaterial to the proofs)
+
+
+class SArr:
+    """tiny array (1-D or 2-D, fixed extent) with symbolic integer entries; immutable like a jax array"""
+
+    def __init__(self, a):
+        self.a = a if isinstance(a, onp.ndarray) and a.dtype == object else onp.array(a, dtype=object)
+
+    @property
+    def shape(self):
+        return self.a.shape
+
+    def __len__(self):
+        return self.a.shape[0]
+
+    def _ew(self, o):
+        out = onp.empty(self.a.shape, dtype=object)
+        of, xf = out.reshape(-1), self.a.reshape(-1)
+        for i in range(xf.size):
+            of[i] = xf[i] + o
+        return SArr(out)
+
+    def __add__(self, o):
+        return self._ew(o)
+    __radd__ = __add__
+
+    @property
+    def at(self):
+        return _At(self)
+
+
+class _At:
+    def __init__(self, arr, key=None):
+        self.arr, self.key = arr, key
+
+    def __getitem__(self, key):
+        return _At(self.arr, key)
+
+    def add(self, v):
+        b = self.arr.a.copy()
+        sub = b[self.key]
+        if isinstance(sub, onp.ndarray):
+            new = onp.empty(sub.shape, dtype=object)
+            for idx in onp.ndindex(*sub.shape):
+                new[idx] = sub[idx] + v
+            b[self.key] = new
+        else:
+            b[self.key] = sub + v
+        return SArr(b)
+
+
+class Rows:
+    """array with a symbolic number of rows, known through its shape and one generic row"""
+
+    def __init__(self, kind, n, tail, **kw):
+        self.kind, self.n, self.tail = kind, n, tuple(tail)
+        self.__dict__.update(kw)
+
+    @property
+    def shape(self):
+        return (self.n,) + self.tail
+
+    def __add__(self, off):
+        return Rows('add', self.n, self.tail, child=self, off=off)
+    __radd__ = __add__
+
+    def row(self, idx):
+        from .. import px
+        if self.kind == 'base':
+            import z3
+            d = z3.simplify(px._z(idx) - px._z(self.gi))
+            if not (z3.is_int_value(d) and d.as_long() == 0) and not (z3.is_rational_value(d) and d.numerator_as_long() == 0):
+                raise px.Unsupported('row %s of a placeholder array is not its generic row %s' % (idx, self.gi))
+            return list(self.w)
+        if self.kind == 'add':
+            return [x + self.off for x in self.child.row(idx)]
+        if self.kind == 'arange':
+            return [idx]
+        if self.kind == 'cat':
+            off = 0
+            for k, part in enumerate(self.parts):
+                if k == len(self.parts) - 1 or bool(idx - off < part.n):
+                    return part.row(idx - off)
+                off = off + part.n
+        raise px.Unsupported(self.kind)
+
+
+class MergeNP:
+    """the two numpy functions the merge code applies to placeholder arrays"""
+
+    def concatenate(self, arrs, axis=0):
+        from .. import px
+        arrs = list(arrs)
+        if axis != 0 or not all(isinstance(a, Rows) for a in arrs) or len({a.tail for a in arrs}) != 1:
+            raise px.Unsupported('concatenate of %s along axis %s' % ([type(a).__name__ for a in arrs], axis))
+        n = arrs[0].n
+        for a in arrs[1:]:
+            n = n + a.n
+        return Rows('cat', n, arrs[0].tail, parts=arrs)
+
+    def arange(self, n, *a, **k):
+        return Rows('arange', n, ())
+
+    def array(self, v, *a, **k):
+        if isinstance(v, (SArr, Rows)):
+            return v
+        return SArr(onp.array(v, dtype=object))
+
+    def _stack(self, arrs, ndim, what):
+        from .. import px
+        arrs = list(arrs)
+        if not all(isinstance(a, SArr) and a.a.ndim == ndim for a in arrs) or (ndim == 2 and len({a.a.shape[1] for a in arrs}) != 1):
+            raise px.Unsupported('%s of %s' % (what, [(type(a).__name__, getattr(a, 'shape', None)) for a in arrs]))     # numpy/jax would raise or broadcast
+        return SArr(onp.concatenate([a.a for a in arrs], axis=0))
+
+    def hstack(self, arrs):
+        return self._stack(arrs, 1, 'hstack')
+
+    def vstack(self, arrs):
+        return self._stack(arrs, 2, 'vstack')
+
+
+def row_of(arr, idx):
+    if isinstance(arr, Rows):
+        return arr.row(idx)
+    return [float(v) for v in onp.asarray(arr[int(idx)]).reshape(-1)]
+
+
+def entries(arr):
+    """(number of rows, flat list of entries) of a set array (SArr or real array)"""
+    if isinstance(arr, SArr):
+        return int(arr.a.shape[0]), list(arr.a.reshape(-1))
+    a = onp.asarray(arr)
+    return int(a.shape[0]), [float(v) for v in a.reshape(-1)]
+
+
+def snap_sets(d):
+    return None if d is None else {k: entries(v) for k, v in d.items()}
+
+
+class _PE:
+    degree = 1
+
+
+def build_mesh(ex, mod, tag, spec):
+    """spec: dict(ns=None|{name: length}, ss=None|{name: rows}, bl={name: length}); every drawn value is an input of the check"""
+    symb = ex.symbolic
+    n, e = ex.int('n' + tag), ex.int('e' + tag)
+    ex.assume((1 <= n) & (n <= N_MAX) & (1 <= e) & (e <= N_MAX))
+    gi, gn = ex.int('ielem' + tag), ex.int('inode' + tag)
+    ex.assume((0 <= gi) & (gi < e) & (0 <= gn) & (gn < n))
+    w = [ex.int('conn%s_%d' % (tag, c)) for c in range(3)]
+    for v in w:
+        ex.assume((0 <= v) & (v < n))
+    xy = [ex.real('x%s_%d' % (tag, c)) for c in range(2)]
+    uv = [ex.real('u%s_%d' % (tag, c)) for c in range(2)]
+    if symb:
+        coords = Rows('base', n, (2,), gi=gn, w=xy)
+        conns = Rows('base', e, (3,), gi=gi, w=w)
+        disp = Rows('base', n, (2,), gi=gn, w=uv)
+        mk = lambda rows: SArr(rows)
+        mk2 = lambda rows: SArr(onp.array(rows, dtype=object).reshape(len(rows), 2))
+    else:
+        c0 = onp.zeros((n, 2))
+        c0[gn] = xy
+        k0 = onp.zeros((e, 3), dtype=onp.int64)
+        k0[gi] = w
+        d0 = onp.zeros((n, 2))
+        d0[gn] = uv
+        coords, conns, disp = jnp.asarray(c0), jnp.asarray(k0), jnp.asarray(d0)
+        mk = lambda rows: jnp.asarray(onp.array(rows, dtype=onp.int64).reshape(len(rows)))
+        mk2 = lambda rows: jnp.asarray(onp.array(rows, dtype=onp.int64).reshape(len(rows), 2))
+
+    def draw(name, hi, what):
+        v = ex.int('%s%s_%s' % (what, tag, name))
+        ex.assume((0 <= v) & (v < hi))
+        return v
+    ns = None if spec['ns'] is None else {k: mk([draw('%s_%d' % (k, j), n, 'ns') for j in range(L)]) for k, L in spec['ns'].items()}
+    ss = None if spec['ss'] is None else {k: mk2([[draw('%s_%d_el' % (k, j), e, 'ss'), draw('%s_%d_side' % (k, j), 3, 'ss')] for j in range(L)]) for k, L in spec['ss'].items()}
+    bl = {k: mk([draw('%s_%d' % (k, j), e, 'bl') for j in range(L)]) for k, L in spec['bl'].items()}
+    mesh = mod.Mesh(coords, conns, (Rows('arange', n, ()) if symb else jnp.arange(n)), _PE(), _PE(), bl, ns, ss)
+    return dict(mesh=mesh, disp=disp, n=n, e=e, gi=gi, gn=gn, w=w, xy=xy, uv=uv)
+
+
+def copy_body(B, mod):
+    """fresh dictionaries and fresh set arrays with the same contents (deep copy of everything the merge code could mutate)"""
+    m = B['mesh']
+
+    def cp(d):
+        if d is None:
+            return None
+        return {k: (SArr(v.a.copy()) if isinstance(v, SArr) else jnp.array(v)) for k, v in d.items()}
+    m2 = mod.Mesh(m.coords, m.conns, m.simplexNodesOrdinals, m.parentElement, m.parentElement1d, cp(m.blocks), cp(m.nodeSets), cp(m.sideSets))
+    return dict(B, mesh=m2)
+
+
+def snapshot(m):
+    return dict(nodeSets=snap_sets(m.nodeSets), sideSets=snap_sets(m.sideSets), blocks=snap_sets(m.blocks))
+
+
+def same_goal(ex, name, got, want, info=''):
+    """structures of snap_sets: None-ness, names, extents are concrete; entries may be symbolic"""
+    from .. import px
+    if (got is None) != (want is None):
+        ex.goal(name, Holds(False), info='%s: %s vs expected %s' % (info, _shape_of(got), _shape_of(want)))
+        return
+    if got is None:
+        ex.goal(name, Holds(True))
+        return
+    if sorted(got) != sorted(want) or any(got[k][0] != want[k][0] or len(got[k][1]) != len(want[k][1]) for k in got):
+        ex.goal(name, Holds(False), info='%s: names/extents %s vs expected %s' % (info, _shape_of(got), _shape_of(want)))
+        return
+    a = [px.unwrap(x) for k in sorted(got) for x in got[k][1]]
+    b = [px.unwrap(x) for k in sorted(got) for x in want[k][1]]
+    ex.goal(name, Eq(a, b) if a else Holds(True), info=info)
+
+
+def _shape_of(s):
+    return None if s is None else {k: (v[0], len(v[1])) for k, v in s.items()}
+
+
+def expected_sets(s1, s2, off, per_row):
+    """the merged sets as the property reads: mesh-1 entries unchanged, mesh-2 entries offset (first column of side-set rows only).
+    A name that occurs in both meshes keeps the members of both: mesh-1 entries followed by the offset mesh-2 entries"""
+    if s1 is None and s2 is None:
+        return None
+    out = {}
+    for k, (L, vals) in (s1 or {}).items():
+        out[k] = (L, list(vals))
+    for k, (L, vals) in (s2 or {}).items():
+        shifted = [v + off if (j % per_row == 0) else v for j, v in enumerate(vals)]
+        if k in out:
+            out[k] = (out[k][0] + L, out[k][1] + shifted)
+        else:
+            out[k] = (L, shifted)
+    return out
+
+
+def range_goal(ex, name, s, his):
+    """every entry of column c of every set lies in [0, his[c] - 1]"""
+    from .. import px
+    vals, ub = [], []
+    for k, (L, flatv) in (s or {}).items():
+        for j, v in enumerate(flatv):
+            vals.append(px.unwrap(v))
+            ub.append(px.unwrap(his[j % len(his)] - 1))
+    ex.goal(name, Le([0] * len(vals) + vals, vals + ub) if vals else Holds(True))
+
+
+def merge_goals(ex, tag, A, B, merged, disp, snapA, snapB):
+    from .. import px
+    n1, e1, N, E = A['n'], A['e'], A['n'] + B['n'], A['e'] + B['e']
+    u = px.unwrap
+    ex.goal(tag + 'sizes_add_up', Eq([u(merged.coords.shape[0]), u(merged.conns.shape[0]), u(disp.shape[0]), u(merged.simplexNodesOrdinals.shape[0])], [u(N), u(E), u(N), u(N)]))
+    # generic rows: element i of mesh 1 stays, element i of mesh 2 moves to e1 + i with its node numbers offset by n1; coordinates / displacements / vertex ordinals likewise
+    r1, r2 = row_of(merged.conns, A['gi']), row_of(merged.conns, e1 + B['gi'])
+    ex.goal(tag + 'connectivity_mesh1_kept_mesh2_offset_by_n1', Eq([u(x) for x in r1 + r2], [u(x) for x in A['w']] + [u(x + n1) for x in B['w']]))
+    ex.goal(tag + 'connectivity_in_range', Le([0] * 6 + [u(x) for x in r1 + r2], [u(x) for x in r1 + r2] + [u(N - 1)] * 6))
+    c1, c2 = row_of(merged.coords, A['gn']), row_of(merged.coords, n1 + B['gn'])
+    d1, d2 = row_of(disp, A['gn']), row_of(disp, n1 + B['gn'])
+    s1, s2 = row_of(merged.simplexNodesOrdinals, A['gn']), row_of(merged.simplexNodesOrdinals, n1 + B['gn'])
+    ex.goal(tag + 'coords_disp_vertex_ordinals_concatenated', Eq([u(x) for x in c1 + c2 + d1 + d2 + s1 + s2], [u(x) for x in A['xy'] + B['xy'] + A['uv'] + B['uv']] + [u(A['gn']), u(n1 + B['gn'])]))
+    got = snapshot(merged)
+    for key, off, per_row, his in (('nodeSets', n1, 1, [N]), ('sideSets', e1, 2, [E, 3]), ('blocks', e1, 1, [E])):
+        want = expected_sets(snapA[key], snapB[key], off, per_row)
+        same_goal(ex, tag + '%s_are_mesh1_entries_and_offset_mesh2_entries' % key, got[key], want, info=key)
+        range_goal(ex, tag + '%s_in_range_of_merged_mesh' % key, got[key], his)
+        cnt = sum(v[0] for v in (got[key] or {}).values())
+        exp = sum(v[0] for v in (snapA[key] or {}).values()) + sum(v[0] for v in (snapB[key] or {}).values())
+        ex.goal(tag + '%s_member_count_adds_up' % key, Holds(cnt == exp), info='%d members, expected %d' % (cnt, exp))
+    # inputs are not mutated: the meshes handed in still equal the deep copies taken before the call
+    for lab, body, snap in (('mesh1', A, snapA), ('mesh2', B, snapB)):
+        now = snapshot(body['mesh'])
+        for key in ('nodeSets', 'sideSets', 'blocks'):
+            same_goal(ex, tag + 'inputs_not_mutated', now[key], snap[key], info='%s.%s after the call' % (lab, key))
+
+
+MERGE_SCENARIOS = [
+    ('distinct_names', dict(ns={'a': 2, 'b': 1}, ss={'sa': 2}, bl={'ba': 2}), dict(ns={'c': 2}, ss={'sc': 1, 'sd': 0}, bl={'bc': 1, 'bd': 2})),
+    ('equal_names', dict(ns={'a': 1, 's': 2}, ss={'t': 1}, bl={'block_0': 1}), dict(ns={'s': 1, 'c': 1}, ss={'t': 2}, bl={'block_0': 2})),
+    ('equal_names_with_empty_sets', dict(ns={'s': 0, 'r': 1}, ss={'te': 0, 't0': 1, 'tz': 0}, bl={'block_0': 2}), dict(ns={'s': 1, 'r': 0}, ss={'te': 1, 't0': 0, 'tz': 0}, bl={'block_0': 1})),
+    ('sets_only_in_mesh1', dict(ns={'a': 2}, ss={'sa': 1}, bl={'ba': 1}), dict(ns=None, ss=None, bl={'bc': 1})),
+    ('sets_only_in_mesh2', dict(ns=None, ss=None, bl={'ba': 1}), dict(ns={'c': 2}, ss={'sc': 2}, bl={'bc': 1})),
+    ('no_sets', dict(ns=None, ss=None, bl={'ba': 1}), dict(ns=None, ss=None, bl={'bc': 1})),
+    ('empty_dicts', dict(ns={}, ss={}, bl={'ba': 1}), dict(ns={}, ss=None, bl={'bc': 1})),
+]
+
+
+def _merge_module(ex):
+    from .. import px
+    if ex.symbolic:
+        mod = px.load_module('optimism/Mesh.py')
+        mod.np = MergeNP()
+        return mod
+    import importlib
+    return importlib.import_module('optimism.Mesh')
+
+
+def merge_harness(specA, specB):
+    def fn(ex):
+        mod = _merge_module(ex)
+        A, B = build_mesh(ex, mod, '1', specA), build_mesh(ex, mod, '2', specB)
+        snapA, snapB = snapshot(copy_body(A, mod)['mesh']), snapshot(copy_body(B, mod)['mesh'])
+        merged, disp = mod.combine_mesh((A['mesh'], A['disp']), (B['mesh'], B['disp']))
+        merge_goals(ex, '', A, B, merged, disp, snapA, snapB)
+    return fn
+
+
+def history_harness(specA, specB, specC):
+    """merge(a, b) then merge(a, c): the second result equals the merge of fresh copies of a and c, and a, b, c are unchanged"""
+    def fn(ex):
+        mod = _merge_module(ex)
+        A, B, C = build_mesh(ex, mod, '1', specA), build_mesh(ex, mod, '2', specB), build_mesh(ex, mod, '3', specC)
+        A0, C0 = copy_body(A, mod), copy_body(C, mod)
+        snapA, snapB, snapC = snapshot(A0['mesh']), snapshot(copy_body(B, mod)['mesh']), snapshot(C0['mesh'])
+        mod.combine_mesh((A['mesh'], A['disp']), (B['mesh'], B['disp']))
+        m2, d2 = mod.combine_mesh((A['mesh'], A['disp']), (C['mesh'], C['disp']))
+        mf, df = mod.combine_mesh((A0['mesh'], A0['disp']), (C0['mesh'], C0['disp']))
+        got, fresh = snapshot(m2), snapshot(mf)
+        for key in ('nodeSets', 'sideSets', 'blocks'):
+            same_goal(ex, 'second_merge_equals_merge_of_fresh_copies', got[key], fresh[key], info=key)
+        merge_goals(ex, 'second_merge.', A, C, m2, d2, snapA, snapC)
+        now = snapshot(B['mesh'])
+        for key in ('nodeSets', 'sideSets', 'blocks'):
+            same_goal(ex, 'second_merge.inputs_not_mutated', now[key], snapB[key], info='first partner %s after both calls' % key)
+    return fn
+
+
+def direct_harness(ex):
+    """the three helpers called directly, incl. the None / None corner that combine_mesh never reaches"""
+    from .. import px
+    mod = _merge_module(ex)
+    A = build_mesh(ex, mod, '1', dict(ns={'a': 1}, ss={'sa': 1}, bl={'ba': 1}))
+    B = build_mesh(ex, mod, '2', dict(ns={'c': 1}, ss={'sc': 1, 'se': 0}, bl={'bc': 1}))
+    sA, sB = snapshot(copy_body(A, mod)['mesh']), snapshot(copy_body(B, mod)['mesh'])
+    mA, mB = A['mesh'], B['mesh']
+    off = A['n']
+    same_goal(ex, 'combine_nodesets(None,None)_is_empty', snap_sets(mod.combine_nodesets(None, None, off)), {})
+    same_goal(ex, 'combine_nodesets(None,s2)', snap_sets(mod.combine_nodesets(None, mB.nodeSets, off)), expected_sets(None, sB['nodeSets'], off, 1))
+    same_goal(ex, 'combine_nodesets(s1,None)', snap_sets(mod.combine_nodesets(mA.nodeSets, None, off)), expected_sets(sA['nodeSets'], None, off, 1))
+    same_goal(ex, 'combine_nodesets(s1,s2)', snap_sets(mod.combine_nodesets(mA.nodeSets, mB.nodeSets, off)), expected_sets(sA['nodeSets'], sB['nodeSets'], off, 1))
+    eoff = A['e']
+    same_goal(ex, 'combine_sidesets(None,None)_is_empty', snap_sets(mod.combine_sidesets(None, None, eoff)), {})
+    same_goal(ex, 'combine_sidesets(s1,s2)', snap_sets(mod.combine_sidesets(mA.sideSets, mB.sideSets, eoff)), expected_sets(sA['sideSets'], sB['sideSets'], eoff, 2))
+    same_goal(ex, 'combine_sidesets(None,s2)', snap_sets(mod.combine_sidesets(None, mB.sideSets, eoff)), expected_sets(None, sB['sideSets'], eoff, 2))
+    same_goal(ex, 'combine_blocks(s1,s2)', snap_sets(mod.combine_blocks(mA.blocks, mB.blocks, eoff)), expected_sets(sA['blocks'], sB['blocks'], eoff, 1))
+    for lab, body, snap in (('mesh1', A, sA), ('mesh2', B, sB)):
+        now = snapshot(body['mesh'])
+        for key in ('nodeSets', 'sideSets', 'blocks'):
+            same_goal(ex, 'inputs_not_mutated', now[key], snap[key], info='%s.%s after the direct calls' % (lab, key))
+
+
+MERGE_OUTSIDE = tuple(t for t in OUTSIDE if 'combine_mesh' not in t and 'curved' not in t) + (
+    'merging: more than two sets per mesh and more than two entries per set (fixed small numbers here; the code treats every set and entry alike), the numerical content '
+    'of coords/conns/disp beyond one generic row each (they only pass through `+ offset` and `concatenate`), meshes of degree > 1 (combine_mesh asserts degree 1), '
+    'block_maps (combine_mesh drops them)',)
+
+
+def _o8_meta(h):
+    from optimism import Mesh as RealMesh
+    h.encoded(RealMesh.combine_mesh, RealMesh.combine_nodesets, RealMesh.combine_sidesets, RealMesh.combine_blocks, RealMesh.num_elements)
+    h.outside(*MERGE_OUTSIDE)
+    h.bounds('two (history: three) meshes with SYMBOLIC node counts n and element counts e in [1, %d]; up to 2 node sets / side sets / blocks per mesh with 0..2 entries each, '
+             'every entry a symbolic integer in range of its own mesh (node sets: [0, n), side sets: element in [0, e), side in {0,1,2}; blocks: [0, e)); name scenarios: %s; '
+             'coords / conns / disp: symbolic row count and one generic row at a symbolic index' % (N_MAX, ', '.join(s[0] for s in MERGE_SCENARIOS)))
+    h.assume_note('PX: the real source of optimism/Mesh.py is executed; in the symbolic run `np` is replaced (module attribute) by a two-function stand-in (concatenate along axis 0 and '
+                  'arange on arrays with a symbolic number of rows, array([]) for the empty side set) and set arrays are tiny immutable arrays with symbolic entries and jax-style .at[].add; '
+                  'the replay calls the real optimism.Mesh functions on real jax arrays of the model\'s sizes and values',
+                  'equal set / block names in both meshes: the merged set of that name holds the mesh-1 entries followed by the offset mesh-2 entries (no member lost; the former '
+                  'behaviour - mesh 2\'s set replaced mesh 1\'s - was a reproduced violation of these goals, fixed in the repository by commit 954aeb1)')
+
+
+@obligation(P, 'O8.merging', cap=280)
+def o8(h):
+    """combine_mesh on two meshes of symbolic size: merged sets are exactly the mesh-1 entries and the mesh-2 entries offset by n1 (side sets: element + e1, side unchanged; blocks: + e1),
+    all in range of the merged mesh, member counts add up (every name scenario, equal names keep the members of both), connectivity of mesh 2 offset by n1, sizes add up, inputs not mutated; every name scenario"""
+    from .. import px
+    _o8_meta(h)
+    for name, sa, sb in MERGE_SCENARIOS:
+        px.run_px(h, name, merge_harness(sa, sb), cap=30, order=('core',))
+    px.run_px(h, 'helpers_called_directly', direct_harness, cap=30, order=('core',))
+
+
+@obligation(P, 'O8.merging_history', cap=280)
+def o8h(h):
+    """merge(a, b) followed by merge(a, c): the second result equals the merge of fresh copies of a and c (no state leaks from the first call through the shared input), a, b, c unchanged"""
+    from .. import px
+    _o8_meta(h)
+    sa, sb = MERGE_SCENARIOS[0][1], MERGE_SCENARIOS[0][2]
+    sc = dict(ns={'d': 1}, ss={'sf': 1}, bl={'bf': 1})
+    px.run_px(h, 'two_merges_sharing_the_first_mesh', history_harness(sa, sb, sc), cap=30, order=('core',))
+    px.run_px(h, 'two_merges_sharing_the_first_mesh_sets_only_in_partners', history_harness(dict(ns=None, ss=None, bl={'ba': 1}), sb, sc), cap=30, order=('core',))
